@@ -356,6 +356,193 @@ func TestUTF8Cover4(t *testing.T) {
 }
 
 // ---------------------------------------------------------------------------
+// class-exhaustive enumerations, driven by the definition of UTF-8
+
+// The byte ranges the standard distinguishes (Unicode table 3-7 plus the bytes
+// that never occur).
+var utf8Ranges = [][2]byte{{0x00, 0x7F}, {0x80, 0x8F}, {0x90, 0x9F}, {0xA0, 0xBF}, {0xC0, 0xC1}, {0xC2, 0xDF}, {0xE0, 0xE0},
+	{0xE1, 0xEC}, {0xED, 0xED}, {0xEE, 0xEF}, {0xF0, 0xF0}, {0xF1, 0xF3}, {0xF4, 0xF4}, {0xF5, 0xFF}}
+
+// repsBoth: both boundary bytes of every range; repsOne: one byte per range.
+func repsBoth() []byte {
+	var r []byte
+	for _, x := range utf8Ranges {
+		r = append(r, x[0])
+		if x[1] != x[0] {
+			r = append(r, x[1])
+		}
+	}
+	return r
+}
+
+func repsOne() []byte {
+	r := make([]byte, len(utf8Ranges))
+	for i, x := range utf8Ranges {
+		r[i] = x[0]
+	}
+	r[0] = 'a'
+	return r
+}
+
+// enumerate calls fn with every string of length 1..maxLen over alpha whose
+// first letter index belongs to this shard. The slice is reused.
+func enumerate(alpha []byte, maxLen int, fn func(s []byte, index int) bool) bool {
+	buf := make([]byte, maxLen)
+	index := 0
+	var rec func(depth int) bool
+	rec = func(depth int) bool {
+		for li, b := range alpha {
+			if depth == 0 && !hx.Mine(li) {
+				continue
+			}
+			buf[depth] = b
+			index++
+			if !fn(buf[:depth+1], index) {
+				return false
+			}
+			if depth+1 < maxLen && !rec(depth+1) {
+				return false
+			}
+		}
+		return true
+	}
+	return rec(0)
+}
+
+// Quick: all strings of length <= 4 over both boundary bytes of every range
+// (24 letters); thorough: also all strings of length <= 6 over one byte per
+// range (14 letters). Standalone in one Read and in 1-byte reads; every tenth
+// string also as a text message through Reader and ReadMessage.
+func TestUTF8ClassExhaustive(t *testing.T) {
+	var agg saStats
+	var st convStats
+	n, nmsg := 0, 0
+	one := func(s []byte, index int) bool {
+		n++
+		if !standaloneBoth(t, s, &agg) {
+			return false
+		}
+		if index%10 != 0 {
+			return true
+		}
+		p := append([]byte(nil), s...)
+		for v := 0; v < 4; v++ {
+			run := convRun{server: v&1 != 0, entry: []int{entryReader, entryReadMessage}[v>>1]}
+			var cuts []int
+			if index%20 == 0 && len(p) > 1 {
+				cuts = []int{len(p) / 2}
+			}
+			run.frames = fragment(ref.OpText, p, cuts, run.server, index, nil)
+			nmsg++
+			if msg := runConversation(run, &st); msg != "" {
+				hx.Failf(t, run.desc(), "%s", msg)
+				return false
+			}
+		}
+		return true
+	}
+	both := repsBoth()
+	if !enumerate(both, 4, one) {
+		return
+	}
+	name := fmt.Sprintf("class-exhaustive: all strings of length <= 4 over the %d boundary bytes of the 14 UTF-8 byte ranges", len(both))
+	if hx.Thorough() {
+		if !enumerate(repsOne(), 6, one) {
+			return
+		}
+		name += ", and of length <= 6 over one byte per range"
+	}
+	hx.EvalN(2*n + nmsg)
+	hx.Part(name+" (standalone whole + 1-byte reads; every tenth as a message)", int64(n), true)
+	classesFromStats("message/class-exhaustive", &st)
+	flushAggBulk(&agg)
+}
+
+type oneByteSrc struct {
+	b    byte
+	done bool
+}
+
+func (s *oneByteSrc) Read(p []byte) (int, error) {
+	if s.done || len(p) == 0 {
+		return 0, io.EOF
+	}
+	s.done = true
+	p[0] = s.b
+	return 1, nil
+}
+
+// The whole tree of strings over the boundary bytes up to length 8 (9 in the
+// thorough tier), fed byte by byte, with the oracle applied at every node. A
+// branch ends where the reader reports ErrInvalidUTF8 (it is not used after
+// that, and the report is checked to be justified, which makes every extension
+// invalid as well); every other branch is followed to the full depth, so a
+// reader that fails to reject is followed into whatever it accepts later.
+func TestUTF8PrefixTree(t *testing.T) {
+	alpha := repsBoth()
+	maxLen := hx.Pick(8, 9)
+	nodes, rejected, late := 0, 0, 0
+	prefix := make([]byte, 0, maxLen)
+	var buf [1]byte
+	var walk func(u wsutil.UTF8Reader) bool
+	walk = func(u wsutil.UTF8Reader) bool {
+		for li, b := range alpha {
+			if len(prefix) == 0 && !hx.Mine(li) {
+				continue
+			}
+			next := u // the reader is a plain value: state after the prefix
+			next.Source = &oneByteSrc{b: b}
+			seen := append(prefix, b)
+			nodes++
+			n, err := next.Read(buf[:])
+			fail := ""
+			switch {
+			case err == wsutil.ErrInvalidUTF8:
+				if prefixOfValid(seen) {
+					fail = "ErrInvalidUTF8 on a prefix of a valid string"
+				}
+				rejected++
+			case err != nil || n != 1 || buf[0] != b:
+				fail = fmt.Sprintf("Read returned (%d, %v), byte %#x", n, err, buf[0])
+			case next.Valid() != utf8.Valid(seen):
+				fail = fmt.Sprintf("Valid()=%v, unicode/utf8 says %v", next.Valid(), utf8.Valid(seen))
+			case next.Accepted() < 0 || next.Accepted() > 1 || (utf8.Valid(seen) && next.Accepted() != 1):
+				fail = fmt.Sprintf("Accepted()=%d after a 1-byte Read, valid so far: %v", next.Accepted(), utf8.Valid(seen))
+			}
+			if fail != "" {
+				hx.Failf(t, saCase{Bytes: fmt.Sprintf("%x", seen), Bufs: byteBufs}, "UTF8Reader fed byte by byte: %s", fail)
+				return false
+			}
+			if err != nil {
+				continue
+			}
+			if !prefixOfValid(seen) {
+				late++
+			}
+			if len(seen) == 3 && seen[0] >= 0xC2 && utf8.Valid(seen) {
+				noteStandalone(seen, "prefix-tree")
+			}
+			if len(seen) < maxLen {
+				prefix = seen
+				ok := walk(next)
+				prefix = prefix[:len(seen)-1]
+				if !ok {
+					return false
+				}
+			}
+		}
+		return true
+	}
+	if !walk(wsutil.UTF8Reader{}) {
+		return
+	}
+	hx.EvalN(nodes)
+	hx.Part(fmt.Sprintf("prefix tree: every string of length <= %d over the boundary bytes of the 14 UTF-8 byte ranges, byte by byte, branches cut where the reader reports an error", maxLen), int64(nodes), true)
+	bulk("standalone/prefix-tree/rejected-branches", rejected)
+	bulk("open/standalone/invalid-prefix-not-rejected-at-once", late)
+}
+
+// ---------------------------------------------------------------------------
 // piece generator
 
 var boundaryRunes = []rune{0x00, 0x41, 0x7f, 0x80, 0xe9, 0x7ff, 0x800, 0xfff, 0x1000, 0x20ac, 0xcfff, 0xd000, 0xd7ff,
